@@ -16,7 +16,7 @@ suite = {}
 if os.path.exists(f'{MUT_ROOT}/{name}.suite.json'):
     sj = json.load(open(f'{MUT_ROOT}/{name}.suite.json'))
     suite = {'repo_head': sj.get('head'), 'passes': sj.get('suite_passes'), 'modules': sj.get('suite'),
-             'tests_rerun_alone_after_a_loaded_first_run': sorted(set(sj.get('retried', [])))}
+             'tests_rerun_alone_after_a_loaded_first_run': sorted(set(sj.get('retried', []))), 'note': sj.get('note', '')}
 meta = {
     'property': prop,
     'summary': m.get('summary'),
